@@ -64,9 +64,22 @@ def run_invocation(proj: dict, inv: dict, src: str, bdir: str, logp: str, shake:
     except OSError:
         evs, badlines = [], 0
     # pids still alive after meson test has returned (then clean them up)
+    # A probe is a child of meson and has been reaped when meson returns.  A leaked helper is nobody's child: all
+    # the harness can do is SIGKILL its process group, and a SIGKILLed process disappears only when the kernel next
+    # schedules it - under load that can be after `meson test` has returned.  So a helper whose group WAS sent SIGKILL
+    # (h_signal record, a fact) gets time to vanish; one that was never sent SIGKILL is judged at once.
+    sigkilled = {x.get('pid') for x in r.records if x.get('ev') == 'h_signal' and x.get('sig') == int(signal.SIGKILL)}
     alive = []
+    waited = 0
     for e in evs:
         if e.get('ev') in ('START', 'CSTART') and _probe_alive(e['pid'], logp):
+            if e['ev'] == 'CSTART' and e.get('ppid') in sigkilled:
+                t_end = time.time() + 20.0
+                while time.time() < t_end and _probe_alive(e['pid'], logp):
+                    time.sleep(0.02)
+                if not _probe_alive(e['pid'], logp):
+                    waited += 1
+                    continue
             alive.append({'pid': e['pid'], 'id': e['id'], 'it': e['it'], 'helper': e['ev'] == 'CSTART'})
     for a in alive:
         try:
@@ -88,6 +101,8 @@ def run_invocation(proj: dict, inv: dict, src: str, bdir: str, logp: str, shake:
         return {'watchdog': True, 'violations': [], 'inconclusive': ['watchdog'], 'counters': {}, 'order': [],
                 'started': [], 'selected': [], 'max_conc': 0, 'brief': r.brief()}
     res = O.check_run(proj, inv, evs, testlog, r.out, r.rc, r.records, alive, r.traceback)
+    if waited:
+        res['counters']['diag:sigkilled_helper_vanished_after_meson_returned'] = waited
     if badlines:
         res['inconclusive'].append('probe-log-unparsable-line')
     res['wall'] = round(r.wall, 2)
@@ -232,7 +247,8 @@ def aggregate(chk: common.Check, results: T.Sequence[dict]) -> dict:
             for mech, det in g['violations']:
                 chk.violation(mech, {'detail': det, 'project': pr.get('proj'), 'inv': g['inv'], 'idx': pr['idx'],
                                      'sizes': g['sizes']})
-    return {'distinct_start_orders': len(orders), 'runs': runs, 'runs_per_profile': profiles}
+    return {'distinct_start_orders': len(orders), 'runs': runs, 'runs_per_profile': profiles,
+            'violation_mechanisms': sorted({w.get('mechanism', '?') for w in chk.violations})}
 
 
 def replay(chk: common.Check, path: str) -> int:
@@ -284,7 +300,9 @@ def main() -> int:
                        ('cov:timeout_kw_negative_with_multiplier', 1), ('cov:nolimit_test_non_OK_classification', 1),
                        ('cov:classified_tests_in_suites', 20), ('cov:suite_selection', 1),
                        ('monitor:limit_passed', 2), ('cov:leaky_victim_TIMEOUT', 1), ('monitor:helpers_seen', 2),
-                       ('cov:leaky_sigterm_ignoring_helper_probe', 1)):
+                       ('cov:leaky_sigterm_ignoring_helper_probe', 1),
+                       ('cov:tap_no_result_line_but_bad_exit', 2), ('cov:death_by_signal_exitcode', 1),
+                       ('cov:death_by_signal_tap', 1)):
         chk.require(m, minimum)
     chk.require('runs_conclusive', int(0.6 * cfg['projects'] * cfg['per_project']))
     if chk.tier == 'thorough':
